@@ -40,7 +40,8 @@ def parse_ace_extended(line: str) -> DStr:  # pylint: disable=too-many-locals
     re_proto = f"({space}{text})?"
     re_srcaddr = f"{space}({addr})"
     re_srcport = "( .+)?"
-    re_dstaddr = f"{space}({addr})"
+    # the destination does not start at the name of an address group ("object-group anyX" is not "any")
+    re_dstaddr = f"(?<! object-group)(?<! addrgroup){space}({addr})"
     re_dstport = "( .+)?"
 
     regex = f"^{re_sequence}{re_action}{re_proto}{re_srcaddr}{re_srcport}{re_dstaddr}{re_dstport}"
